@@ -94,22 +94,45 @@ def run(chk, tier):
         chk.bad("R17.3", "compile() converts the root node", str([e[:100] for e in ex]), cp.file)
     # ---------------- R17.4
     ib = F.body("rscel::context::bind_context::BindContext::<'a>::is_bound")
-    q = mirq.BodyQ(ib)
-    ck = sorted(mirq.expr_of(q, t["args"][0]) for i, t, p in q.call_sites(r"HashMap::<K, V, S>::contains_key$"))
-    # fields: params .0, funcs .1, macros .2
-    if ck == ["p1.0", "p1.1", "p1.2"]:
-        # or-ed: the function returns true on every hit edge: no path where a contains_key was true reaches a `false` result
-        chk.ok("R17.4", "is_bound = params | funcs | macros", ck)
-    else:
-        chk.bad("R17.4", "is_bound = params | funcs | macros", "is_bound consults %s (expected the variable, function and macro tables)" % ck, ib.file)
+    # decision table of is_bound (symbolic execution, the context's own getters inlined): a name is bound iff it is found in the variable,
+    # function or macro table - each table probed by key (contains_key, or get(..) being Some)
     import symex, semtables
-    it = symex.Interp(F, semtables.LogicPolicy())
+
+    class BoundPolicy(semtables.LogicPolicy):
+        def inline(self, path, body):
+            return semtables.LogicPolicy.inline(self, path, body) or bool(re.search(r"BindContext::<'a>::get_(param|func|macro|type)$", path))
+    it = symex.Interp(F, BoundPolicy())
     outs = it.run(ib, [symex.U("self", "&BindContext"), symex.U("name", "&str")])
     tab = set()
+    fields = set()
     for st, r in outs:
-        vals = tuple(sorted((c[1], c[2] if c[0] == "eq" else 1) for c in st.cond if c[0] in ("eq", "ne")))
-        tab.add((tuple(v for _, v in vals), symex.render(r)))
-    good = all((res == "1") == any(v == 1 for v in vs) for vs, res in tab) and len(tab) >= 3
+        probes = []
+        for c in st.cond:
+            m_ = re.match(r"^HashMap::contains_key\(self\.(\d+), name\)$", str(c[1])) if c[0] in ("eq", "ne") else None
+            if m_:
+                probes.append((int(m_.group(1)), 1 if c[0] == "ne" else 0))
+            m_ = re.match(r"^HashMap::get\(self\.(\d+), name\)$", str(c[3])) if c[0] == "variant" else None
+            if m_:
+                probes.append((int(m_.group(1)), 1 if c[2] == "Some" else 0))
+        rr_ = symex.render(r)
+        m_ = re.match(r"^(?:Option::is_some\()?HashMap::(?:contains_key|get)\(self\.(\d+), name\)\)?$", rr_)
+        if m_:
+            # the last probe is returned as it is: both of its outcomes
+            k_ = int(m_.group(1))
+            fields.update([f_ for f_, _ in probes] + [k_])
+            tab.add((tuple(sorted(probes + [(k_, 1)])), "1"))
+            tab.add((tuple(sorted(probes + [(k_, 0)])), "0"))
+            continue
+        fields.update(f_ for f_, _ in probes)
+        tab.add((tuple(sorted(probes)), rr_))
+    bc = [a_ for a_ in F.adts.values() if a_["path"] == "rscel::context::bind_context::BindContext"][0]
+    fnames = [f_["name"] for f_ in bc["variants"][0]["fields"]]
+    consulted = sorted(fnames[f_] if f_ < len(fnames) else str(f_) for f_ in fields)
+    if consulted == ["funcs", "macros", "params"]:
+        chk.ok("R17.4", "is_bound = params | funcs | macros", consulted)
+    else:
+        chk.bad("R17.4", "is_bound = params | funcs | macros", "is_bound consults %s (expected the variable, function and macro tables)" % consulted, ib.file)
+    good = all(res in ("0", "1") and (res == "1") == any(v == 1 for _, v in pr) for pr, res in tab) and len(tab) >= 3
     if good:
         chk.ok("R17.4", "is_bound is the disjunction", sorted(tab))
     else:
